@@ -62,9 +62,14 @@ def run(chk):
         for acc, a, ma in zip(["info", "images", "rpms", "modules"], got[1:], m[1:]):
             if len(lay) == 1 and a[0] != "ok":
                 pat = S.PATTERNS[list(lay.values())[0]]
-                good = [fn for fn, key in pat.items() if key.rstrip("2") == acc and fn in NAMES[acc]]
-                if good:
-                    chk.violation("%s is stored as %s in the only populated layout but the accessor raised %s" % (acc, good[0], a[1]), c, "dir_layout")
+                first = [fn for fn in NAMES[acc] if fn in pat][:1]           # the current name wins over the legacy one
+                if first and pat[first[0]].rstrip("2") == acc:
+                    chk.violation("%s is stored as %s in the only populated layout but the accessor raised %s" % (acc, first[0], a[1]), c, "dir_layout")
+            ds = got[5].get(acc) if len(got) > 5 and isinstance(got[5], dict) else None
+            if a[0] == "ok" and ds == "undecodable":
+                chk.violation("%s: the file under the resolved path cannot be loaded on its own, yet the accessor returned an object (from %s)" % (acc, a[3]), c, "dir_layout")
+            if a[0] != "ok" and ds == "loads":
+                chk.violation("%s: the file under the resolved path loads on its own, but the accessor raised %s" % (acc, a[1]), c, "dir_layout")
             if a[0] == "ok":
                 if not a[1]:
                     chk.violation("%s was loaded twice (second access returned another object)" % acc, c, "dir_layout")
